@@ -6,6 +6,7 @@ Require Import LV.Files.NumFmtModel LV.Files.NumFmtProofs LV.Files.NpdScan LV.Fi
                LV.Files.SaveModel LV.Files.SaveProofs.
 Require LV.Files.TsTok LV.Files.TsParse LV.Files.TsSpec LV.Files.SaveEmit LV.Files.SaveEmitProofs LV.Files.SaveEmitExamples.
 Require LV.Files.SaveTsLemmas LV.Files.NpdLoad LV.Files.SaveNpdProofs LV.Files.SaveAllProofs LV.Files.SaveNormIdentity.
+Require LV.Files.SaveState LV.Files.SaveStateProofs LV.Files.SaveBoundary.
 Require LV.Base.CField LV.Conv.ConvRel LV.Gen.Conv2_s LV.Gen.Conv2_z.
 Open Scope Z_scope.
 
@@ -65,21 +66,25 @@ Example fields_instance :
   line_fields (loader_fields_d31 3) false 3 [Build_entry PS IL; Build_entry PS RI] = 22%nat.
 Proof. exact fields_example. Qed.
 
-(* cksave_iff_save: for every object that vnadata_init accepts, every file type and format list,
-   vnadata_cksave accepts iff vnadata_save gets past its checks and conversions (the code after fix D32;
-   allocation and I/O failures are outside the model). *)
-Theorem cksave_iff_save : forall o : sobj, wf_obj o = true -> cksave o = save o.
+(* cksave_accepts_then_save_converts (was named cksave_iff_save): on the acceptance model, for every object that vnadata_init
+   accepts, every file type, promote flag, format list and either outcome of the test z0[0] == 1.0: when the checks of
+   vnadata_cksave pass, every conversion vnadata_save performs afterwards (the Touchstone 1 normalisation copy - made only when
+   the file stays Touchstone 1 and z0[0] != 1 - and one vnadata_convert per entry) is one the conversion table and the
+   dimension rule allow; written as the equation cksave o = save z0_one o, whose other direction (save refuses what cksave
+   refuses) holds by definition of the model: save runs the same checks first.  Allocation and I/O failures are outside. *)
+Theorem cksave_accepts_then_save_converts : forall (z0_one : bool) (o : sobj), wf_obj o = true -> cksave o = save z0_one o.
 Proof. exact cksave_iff_save_lemma. Qed.
-Print Assumptions cksave_iff_save.
+Print Assumptions cksave_accepts_then_save_converts.
 
 (* the checks before fix D32 accepted 3x3 S data with format Hri, which save then refused *)
-Theorem cksave_iff_save_d32_refuted : exists o, wf_obj o = true /\ cksave_d32 o = true /\ save_d32 o = false.
+Theorem cksave_accepts_then_save_converts_d32_refuted :
+  exists o, wf_obj o = true /\ cksave_d32 o = true /\ forall z0_one, save_d32 z0_one o = false.
 Proof. exact cksave_d32_refuted. Qed.
-Print Assumptions cksave_iff_save_d32_refuted.
+Print Assumptions cksave_accepts_then_save_converts_d32_refuted.
 
 Example cksave_instance :
   cksave (Build_sobj PZ 2 2 3 false true true TS1 false [Build_entry PUNDEF RI]) = true /\
-  save (Build_sobj PZ 2 2 3 false true true TS1 false [Build_entry PUNDEF RI]) = true /\
+  save false (Build_sobj PZ 2 2 3 false true true TS1 false [Build_entry PUNDEF RI]) = true /\
   cksave d32_witness = false.
 Proof. exact cksave_example. Qed.
 
@@ -105,10 +110,10 @@ Section SaveLoadTouchstone2.
   Hypothesis ptext_word : forall p s x, parse_double (up (v_ptext E p s x)) = Some (rd p x).
   Hypothesis atext_word : forall ap z x, parse_double (up (v_atext E ap z x)) = Some (rda ap z x).
   Hypothesis itext_int : forall z, 0 <= z <= 2147483647 -> parse_int (v_itext E z) = Some z.
-  Hypothesis rd_sign : forall p x, xle (v_val E x) xq0 = false -> xle (rd p x) xq0 = false.
+  Hypothesis rd_sign : forall p x, xlt xq0 (v_val E x) = true -> xlt xq0 (rd p x) = true.
   Hypothesis num_rt : forall p x, exact_prec p = true -> rd p x = v_val E x.
 
-  (* load_save_id_touchstone2: for EVERY object with the invariants of a vnadata_t (mobj_wf: z0 vector and
+  (* touchstone2_loads_as_written: for EVERY object with the invariants of a vnadata_t (mobj_wf: z0 vector and
      data sized by rows / ports, ports <= 46340, frequency count fits int), every file type decision / promote
      flag / format vector that vnadata_cksave accepts (cksave, SaveModel.v) and that ends as Touchstone 2
      (set directly, or a ".ts" name promoted because of > 4 ports or unequal z0) - ANY number of ports, ANY
@@ -117,7 +122,7 @@ Section SaveLoadTouchstone2.
      model writes and returns [ts2_loaded]: version 2, the entry's type and format, the port count, every
      frequency, every reference impedance and every cell as the texts written for them read back (for MA / DB
      the pair (magnitude or dB, angle) of the abstract cabs / log10 / carg, as written). *)
-  Theorem load_save_id_touchstone2 : forall o ft0 promote fmt,
+  Theorem touchstone2_loads_as_written : forall o ft0 promote fmt,
     conv_keeps_length D E -> mobj_wf D o -> wf_obj (sobj_of E o ft0 promote fmt) = true ->
     cksave (sobj_of E o ft0 promote fmt) = true -> final_filetype (sobj_of E o ft0 promote fmt) = TS2 ->
     freqs_readable D rd o ->
@@ -151,14 +156,14 @@ Section SaveLoadTouchstone2.
                  v2_wf (v2_of D E rd rda o e).
   Proof. exact (ts2_save_denotes_lemma D E rd rda ptext_word atext_word itext_int rd_sign). Qed.
 
-  (* load_save_id_touchstone1 (+ save_denotes): for EVERY object cksave accepts whose final file type is Touchstone 1
+  (* touchstone1_loads_as_written_partial (+ save_denotes): for EVERY object cksave accepts whose final file type is Touchstone 1
      (1..4 ports follow from the checks; any number of frequencies; S/Z/Y/H/G; RI/MA/DB; any precisions; z0 = 1 or
      not, i.e. printed from the object itself or from its normalised copy [print_obj]): the stream written IS
      TsSpec.v1_stream of the abstract version-1 file [v1_of] (2-port matrices column-major on one line, otherwise one
      row per line), that file is well formed, and the loader model returns [ts1_loaded]: version 1, type, format, ports,
      every frequency, R for every port, and per frequency the cells as written read back and un-normalised by R as the
      loader does (TsParse.unnormalise: identity for S). *)
-  Theorem load_save_id_touchstone1 : forall o ft0 promote fmt,
+  Theorem touchstone1_loads_as_written_partial : forall o ft0 promote fmt,
     conv_keeps_length D E -> mobj_wf D o -> wf_obj (sobj_of E o ft0 promote fmt) = true ->
     cksave (sobj_of E o ft0 promote fmt) = true -> final_filetype (sobj_of E o ft0 promote fmt) = TS1 ->
     freqs_readable D rd o ->
@@ -179,10 +184,10 @@ Section SaveLoadTouchstone2.
           (map (map (exact_cell D E)) (m_data o)).
   Proof. exact (ts1_loaded_exact_S D E rd rda num_rt). Qed.
 End SaveLoadTouchstone2.
-Print Assumptions load_save_id_touchstone2.
+Print Assumptions touchstone2_loads_as_written.
 Print Assumptions load_save_id_touchstone2_exact.
 Print Assumptions save_denotes_touchstone2.
-Print Assumptions load_save_id_touchstone1.
+Print Assumptions touchstone1_loads_as_written_partial.
 Print Assumptions load_save_id_touchstone1_exact_S.
 
 (* ------------------------------------------------------------------------------------------------
@@ -202,14 +207,14 @@ Section SaveLoadNpd.
   Hypothesis ptext_nohash : forall p s x, hd 0%N (v_ptext E p s x) <> 35%N.
   Hypothesis itext_field : forall z : Z, (0 <= z <= 2147483647)%Z -> field_int (v_itext E z) = Some z.
 
-  (* load_save_id_npd: for EVERY object (npd_wf) and EVERY format list l of resolved entries parse_format can produce
+  (* npd_loads_as_written: for EVERY object (npd_wf) and EVERY format list l of resolved entries parse_format can produce
      (entry_good: wf_entry, two-port types only on two ports, square data for matrix entries, the entry's matrix sized) that
      holds at least one loadable (pair-form) entry - matrix RI / MA / DB, Zin RI / MA / PRC / PRL / SRC / SRL - next to any
      number of IL / RL / VSWR columns, z0 vector or per-frequency z0 vectors, any number of ports / frequencies / entries, the
      line's field count fitting int: the loader model accepts the lines the saver model writes and returns [npd_loaded o e]
      where e is the entry the loader's own selection (sel = the choice made by account) picks, at field offset pbase + the
      fields of ALL entries before it (the IL / RL / VSWR columns are skipped by their counts: efields_len, il_length). *)
-  Theorem load_save_id_npd : forall o l, npd_wf D o -> Exists (fun e => pairform e = true) l -> Forall (entry_good D E o) l ->
+  Theorem npd_loads_as_written : forall o l, npd_wf D o -> Exists (fun e => pairform e = true) l -> Forall (entry_good D E o) l ->
     fz0_sized D o -> m_freqs o <> [] ->
     (pbase D o + sum_fields (Z.of_nat (m_ports o)) l <= 2147483647)%Z ->
     exists l1 e l2, l = l1 ++ e :: l2 /\
@@ -227,7 +232,7 @@ Section SaveLoadNpd.
     nfinish (fold_left nstep (npd_header E o l ++ map_i (npd_line E o l) 0%nat (m_freqs o)) (NHeader nh0)) = NError NEBADMSG.
   Proof. exact (npd_scalar_only_rejected_lemma D E rd ptext_field ptext_cstr ptext_nohash itext_field). Qed.
 
-  (* npd_premises_from_cksave: the premises of load_save_id_npd follow from the acceptance checks (cksave), vnadata_init's
+  (* npd_premises_from_cksave: the premises of npd_loads_as_written follow from the acceptance checks (cksave), vnadata_init's
      shape rule (wf_obj), the invariants of a vnadata_t (mobj_inv: sizes of the z0 / data vectors, ports <= 46340,
      precisions 0..1000), the shape of vnadata_convert's result (conv_shape) and the format vector being parse_format's
      output (wf_entry). *)
@@ -245,13 +250,13 @@ Section SaveLoadNpd.
     entry_vals D E rd rda o e fq v = (val (fst v), val (snd v)).
   Proof. exact (entry_vals_exact D E rd rda). Qed.
 End SaveLoadNpd.
-Print Assumptions load_save_id_npd.
+Print Assumptions npd_loads_as_written.
 Print Assumptions load_save_id_npd_scalar_only_refuted.
 Print Assumptions npd_premises_from_cksave.
 Print Assumptions load_save_id_npd_exact_cell.
 
 (* ------------------------------------------------------------------------------------------------
-   c06_load_save_id: the headline.  For EVERY object vnadata_cksave accepts and EVERY file type: what the loader model of
+   c06_loads_as_written: the headline.  For EVERY object vnadata_cksave accepts and EVERY file type: what the loader model of
    the final file type (TsParse.parse for Touchstone 1 / 2, NpdLoad's nstep / nfinish for NPD) returns for the file the
    saver model writes is the loaded-object record of that file type (ts1_loaded / ts2_loaded / npd_loaded).
    Premises, all explicit:
@@ -272,14 +277,14 @@ Section Headline.
   Hypothesis ptext_word : forall p s x, parse_double (up (v_ptext E p s x)) = Some (rd p x).
   Hypothesis atext_word : forall ap z x, parse_double (up (v_atext E ap z x)) = Some (rda ap z x).
   Hypothesis itext_int : forall z : Z, (0 <= z <= 2147483647)%Z -> parse_int (v_itext E z) = Some z.
-  Hypothesis rd_sign : forall p x, xle (v_val E x) xq0 = false -> xle (rd p x) xq0 = false.
+  Hypothesis rd_sign : forall p x, xlt xq0 (v_val E x) = true -> xlt xq0 (rd p x) = true.
   Hypothesis ptext_field : forall p s x, field_double (v_ptext E p s x) = Some (rd p x).
   Hypothesis atext_field : forall ap z x, field_double (v_atext E ap z x) = Some (rda ap z x).
   Hypothesis ptext_cstr : forall p s x, cstr (v_ptext E p s x) = v_ptext E p s x.
   Hypothesis ptext_nohash : forall p s x, hd 0%N (v_ptext E p s x) <> 35%N.
   Hypothesis itext_field : forall z : Z, (0 <= z <= 2147483647)%Z -> field_int (v_itext E z) = Some z.
 
-  Theorem c06_load_save_id : forall o ft0 promote fmt,
+  Theorem c06_loads_as_written : forall o ft0 promote fmt,
     let s := sobj_of E o ft0 promote fmt in
     mobj_wf D o -> mobj_inv D o -> conv_keeps_length D E -> conv_shape D E ->
     Forall (fun e => wf_entry e = true) (resolved s) ->
@@ -294,13 +299,13 @@ Section Headline.
              ptext_field atext_field ptext_cstr ptext_nohash itext_field).
   Qed.
 End Headline.
-Print Assumptions c06_load_save_id.
+Print Assumptions c06_loads_as_written.
 
 (* touchstone1_normalisation_identity_Z_partial: the Touchstone 1 normalisation, two-port Z, in exact arithmetic and on the
    two-port functions regenerated from vnaconv_ztos.c / vnaconv_stoz.c (LV.Gen, property C04): for a real reference
    resistance R = k * k (k = ksq R <> 0, cj R = R) and every matrix outside the singular set of ztos, what the saver writes,
    stoz (ztos Z R R) 1 1, multiplied cell by cell by R - what TsParse.unnormalise does for PZ - is Z.  PARTIAL: Y, H, G and
-   the n-port Z / Y conversions are not done, and the link to load_save_id_touchstone1 (abstract conv, binary64 values) is
+   the n-port Z / Y conversions are not done, and the link to touchstone1_loads_as_written_partial (abstract conv, binary64 values) is
    the exact-arithmetic reading of its ts1_loaded, not a formal corollary. *)
 Section NormId.
   Import LV.Base.CField LV.Conv.ConvRel.
@@ -318,7 +323,7 @@ Print Assumptions touchstone1_normalisation_identity_Z_partial.
    frequency of a Touchstone 1 file (frequency, cells in the 2-port column-major order or row by row, one row per
    line) are exactly the data lines TsSpec.v1_record_lines prescribes for the record (frequency, cell numbers), i.e.
    the lines C08's v1_load theorem reads.  PARTIAL: the header run, v1_wf and the un-normalisation identity are
-   missing, so no load theorem for Touchstone 1 yet (model + tie:save_emit_model + tie:roundtrip only). *)
+   missing here; the load theorem is touchstone1_loads_as_written_partial below. *)
 Theorem load_save_id_touchstone1_lines_partial :
   forall (D : Type) (E : SaveEmit.env D) (rd : Z -> D -> TsTok.xnum) (rda : Z -> bool -> D -> TsTok.xnum) o n e data i fq,
   (1 <= n <= 4)%nat -> ri_ma_db (e_form e) = true ->
@@ -336,3 +341,56 @@ Example load_save_id_premises_instance :
   SaveEmitProofs.freqs_readable Z (fun _ x => SaveEmitExamples.xz x) SaveEmitExamples.o3 /\
   SaveEmitProofs.exact_prec (SaveEmit.m_fprec SaveEmitExamples.o3) = true /\ SaveEmitProofs.exact_prec (SaveEmit.m_dprec SaveEmitExamples.o3) = true.
 Proof. exact SaveEmitExamples.premises_instance. Qed.
+
+(* ------------------------------------------------------------------------------------------------
+   Naming (review round 2): the theorems named ..._loads_as_written conclude `loader (saver o) = *_loaded o e`, where *_loaded
+   is built from rd p x = "what strtod returns for the text written for x at precision p"; nothing relates rd p x to the
+   value of x for p < 17.  Only the ..._exact theorems are identities on values, through num_rt - the ONLY rounding
+   hypothesis of this development (there is no hex_exact / dec_relerr).  touchstone1_loads_as_written_partial: for Z/Y/H/G the
+   cells are those of the normalised conversion un-normalised by R; that this is the saved matrix is proved only for
+   two-port Z in exact arithmetic (touchstone1_normalisation_identity_Z_partial).
+   ------------------------------------------------------------------------------------------------ *)
+
+(* save_leaves_object_unchanged / cksave_is_pure (after fix DA90): on the settings-state model of Files/SaveState.v - the file
+   type and the format vector as vnadata_save_common changes them on the way to `out:` (file type from the file name,
+   promotion of a ".ts" Touchstone 1 object, default format, parameter types of "ri" / "ma" / "dB" filled in) followed by
+   the restoring statements of the fix (vdi_filetype = filetype0; vnadata_set_format(format0) when the format was touched) -
+   for EVERY object, file-name kind, file type setting and format vector parse_format can produce (typed or untyped), and
+   whichever check refuses or none: the settings after the call are the settings before it. *)
+Theorem save_leaves_object_unchanged : forall i nk v,
+  Forall (fun e => LV.Files.SaveNpdProofs.wfu e = true) (LV.Files.SaveState.v_fmt v) ->
+  LV.Files.SaveState.settings_after false i nk v = v.
+Proof. exact (LV.Files.SaveStateProofs.save_leaves_settings_lemma false). Qed.
+Print Assumptions save_leaves_object_unchanged.
+Theorem cksave_is_pure : forall i nk v,
+  Forall (fun e => LV.Files.SaveNpdProofs.wfu e = true) (LV.Files.SaveState.v_fmt v) ->
+  LV.Files.SaveState.settings_after true i nk v = v.
+Proof. exact (LV.Files.SaveStateProofs.save_leaves_settings_lemma true). Qed.
+Print Assumptions cksave_is_pure.
+(* as found, before fix DA90: vnadata_cksave on a fresh 2x2 S object with a ".s2p" name leaves file type Touchstone 1 and format
+   "Sri" behind (and a save leaves "Sma" where "ma" was set, so that a later save of the object converted to Z writes S) *)
+Theorem cksave_is_pure_da90_refuted : exists i nk v,
+  Forall (fun e => LV.Files.SaveNpdProofs.wfu e = true) (LV.Files.SaveState.v_fmt v) /\
+  LV.Files.SaveState.settings_after_da90 true i nk v <> v.
+Proof. exact LV.Files.SaveStateProofs.save_changed_settings_da90. Qed.
+Print Assumptions cksave_is_pure_da90_refuted.
+
+(* touchstone_unreadable_frequencies_refuted (known finding DA91): the boundary of the premise freqs_readable.  There are objects
+   the acceptance checks accept and the saver writes whose file the Touchstone loader model refuses (EBADMSG, "frequencies
+   must be in increasing order"): two frequencies that are different values but print as the same text at fprecision
+   (Touchstone 2 and Touchstone 1), and descending frequencies; with ascending frequencies the same object loads.  Closed
+   witnesses on a six-value number type with fixed decimal texts (Files/SaveBoundary.v).  "Every format combination the
+   saver accepts is one the loader accepts" is therefore false for such objects. *)
+Theorem touchstone_unreadable_frequencies_refuted :
+  let o1 := LV.Files.SaveBoundary.one_port LV.Files.SaveBoundary.V1a LV.Files.SaveBoundary.V1b in
+  let o2 := LV.Files.SaveBoundary.one_port LV.Files.SaveBoundary.V2 LV.Files.SaveBoundary.V1a in
+  cksave (LV.Files.SaveEmit.sobj_of LV.Files.SaveBoundary.Etv o1 TS2 false []) = true /\
+  LV.Files.TsParse.parse (LV.Files.SaveBoundary.saved_stream o1 TS2) = LV.Files.TsParse.Error LV.Files.TsParse.EBADMSG /\
+  cksave (LV.Files.SaveEmit.sobj_of LV.Files.SaveBoundary.Etv o1 TS1 false []) = true /\
+  LV.Files.TsParse.parse (LV.Files.SaveBoundary.saved_stream o1 TS1) = LV.Files.TsParse.Error LV.Files.TsParse.EBADMSG /\
+  cksave (LV.Files.SaveEmit.sobj_of LV.Files.SaveBoundary.Etv o2 TS2 false []) = true /\
+  LV.Files.TsParse.parse (LV.Files.SaveBoundary.saved_stream o2 TS2) = LV.Files.TsParse.Error LV.Files.TsParse.EBADMSG /\
+  (exists o, LV.Files.TsParse.parse (LV.Files.SaveBoundary.saved_stream
+               (LV.Files.SaveBoundary.one_port LV.Files.SaveBoundary.V1a LV.Files.SaveBoundary.V2) TS2) = LV.Files.TsParse.Ok o).
+Proof. exact LV.Files.SaveBoundary.unreadable_frequencies_witnesses. Qed.
+Print Assumptions touchstone_unreadable_frequencies_refuted.
